@@ -75,6 +75,14 @@ def stress_api(r, idx):
             main.resource_def(f"delta.example.com/Res{i}", [f"res{i}s/{{res{i}}}"])
             add_ref(f"res_{i}", f"delta.example.com/Res{i}")
         feats.append("many-resources")
+    if idx % 2 == 0:
+        # an oauth_scopes annotation with several scopes, blanks after commas, a trailing comma (and, when the generator accepts it, a
+        # scope given twice): the scopes are emitted in AUTH_SCOPES and in the emitted tests, in declared order
+        from google.api import client_pb2
+        base = "https://www.googleapis.com/auth/"
+        sc = [base + n for n in ("cloud-platform", "library", "library.readonly", "library.admin", "devstorage.read_write")]
+        svc_proto.options.Extensions[client_pb2.oauth_scopes] = ", ".join(sc) + ("," if idx % 4 == 0 else ", " + sc[0] + ",")
+        feats.append("oauth-scopes-with-blanks-trailing-comma" + ("" if idx % 4 == 0 else "-and-duplicate"))
     retry = None
     if k in (2, 3, 4):
         retry = {"methodConfig": [{"name": [{"service": f"{api.package}.{svc_proto.name}"}], "timeout": "60s",
